@@ -60,15 +60,47 @@ def check_filter_table(ctx):
                 cands.append(mk_fn('all', B(R_, alg.eq(lhs, rhs))))
     okg, seen = guard_requires(I, cands)
     ctx.expect(okg, 'CFG-6', 'filter_table post-check', where_, 'raises unless the returned names equal the fit\'s names in order', 'no raising post-check on the names (guards: %s)' % seen, 'post-check')
-    # additional parameters keyed by name
-    ok = False
-    for n in walk_local(ft.node):
-        if isinstance(n, ast.For) and isinstance(n.iter, ast.Call) and (chain(n.iter.func) or '') == 'enumerate' and 'MODEL_NAME' in up(n.iter) and isinstance(n.target, ast.Tuple):
-            iv, nv = n.target.elts[0].id, n.target.elts[1].id
-            for t, v, st in stores(n):
-                if isinstance(t, ast.Subscript) and up(t.slice) == iv and isinstance(v, ast.Subscript) and nv in up(v.slice) and 'additional' in up(v.value):
-                    ok = True
-    ctx.expect(ok, 'PERM-9', 'additional parameters attached by model name', where_, 'row i receives additional[par][name of row i]', 'additional parameters are not looked up by the row\'s model name', 'additional-by-name')
+    # additional parameters keyed by name: filter_table interpreted with a symbolic per-name dictionary; the column it attaches must hold, on row r, the entry
+    # of the (stripped) model name of row r
+    from ..roundtrip import SuspectCtx
+    inst = 'additional parameters attached by model name'
+
+    class _Lookup(Foreign):
+        def sl_getitem(self, interp, key, node):
+            k_ = interp._as_arr(key)
+            if isinstance(k_, Arr):
+                return Arr(k_.dims, mk_fn('lookup', P(k_.poly)), unit=num(1))
+            return NotImplemented
+
+        def sl_contains(self, interp, key):
+            return True
+    I2 = Interp(repo)
+    T2 = SymTable({'MODEL_NAME': symarr('tname', (T_,)), 'P1': symarr('p1', (T_,))}, T_)
+    info2 = Obj(repo.cls('fit_info', 'FitInfo'), dict(info.attrs))
+    out2 = I2.call(ft, [T2], {'additional': {'EXTRA': _Lookup()}}, selfv=info2)
+    col = out2.cols.get('EXTRA') if isinstance(out2, SymTable) else None
+    names2 = out2.cols.get('MODEL_NAME') if isinstance(out2, SymTable) else None
+    decided = False
+    if isinstance(col, Arr) and isinstance(names2, Arr) and col.mask is None and tuple(col.dims) == (R_,):
+        want = [mk_fn('lookup', P(mk_fn('strip', P(names2.poly)))), mk_fn('lookup', P(names2.poly)), mk_fn('lookup', P(mk_fn('strip', P(sym('mname', R_))))), mk_fn('lookup', P(sym('mname', R_)))]
+        if any(alg.is_zero(col.poly - w_)[0] for w_ in want):
+            ctx.ok('PERM-9', inst, where_, 'row r receives additional[par][name of row r]')
+            decided = True
+        else:
+            syms_, fns_ = alg.leaf_syms(col.poly)
+            if syms_ <= {'tname', 'mname', 'p1', 'chi2', 'av', 'sc', 'model_id'} | {x for x in syms_ if x.startswith('idx:')} and fns_ <= {'lookup', 'strip', 'at', 'argsort', 'invperm', 'nonzero', 'isin', 'len'}:
+                ctx.violation('PERM-9', inst, where_, 'additional parameters are not looked up by the row\'s model name: row r receives %s' % alg.show(col.poly, 160), 'additional-by-name')
+                decided = True
+    if not decided:
+        sctx = SuspectCtx(ctx, 'the attached column was not decided by interpretation (%r) and the syntactic rule, which knows one spelling only, reports' % (col if col is not None else out2,))
+        ok = False
+        for n in walk_local(ft.node):
+            if isinstance(n, ast.For) and isinstance(n.iter, ast.Call) and (chain(n.iter.func) or '') == 'enumerate' and 'MODEL_NAME' in up(n.iter) and isinstance(n.target, ast.Tuple):
+                iv, nv = n.target.elts[0].id, n.target.elts[1].id
+                for t, v, st in stores(n):
+                    if isinstance(t, ast.Subscript) and up(t.slice) == iv and isinstance(v, ast.Subscript) and nv in up(v.slice) and 'additional' in up(v.value):
+                        ok = True
+        sctx.expect(ok, 'PERM-9', inst, where_, 'row i receives additional[par][name of row i]', 'additional parameters are not looked up by the row\'s model name', 'additional-by-name')
 
 
 
@@ -361,6 +393,73 @@ def check_row_index(ctx):
                        'n_data / n_fits not taken from the record', 'counts')
 
 
+def check_row_index_semantic(ctx):
+    """(PERM-8) the consumers that print one row per fit are interpreted with a file stand-in; every value they write that comes from a per-fit array (model
+    name, chi^2, A_V, scale, the columns of the filtered table) must be the element of that array at the row being written - the generic element of the fit
+    axis - and the row must be written for every selected fit.  Returns False when the interpretation has no verdict."""
+    from ..interp import Fmt
+    repo = ctx.repo
+    decided = True
+    for module, func, per_fit in (('write_parameters', 'write_parameters', ('mname', 'chi2', 'av', 'sc', 'fp1')), ('extract_parameters', 'extract_parameters', ('chi2', 'av', 'sc', 'fp1'))):
+        fi = ctx.fn(repo.func(module, func))
+        inst = '%s: per-fit arrays indexed by the fit loop variable' % func
+        try:
+            I, h, r = run_consumer(repo, module, func)
+        except Exception as ex:
+            ctx.undecided('PERM-8', inst, where(fi), 'consumer not interpreted: %s' % str(ex)[:120]); decided = False
+            continue
+        rows = {}          # per-fit array -> [(value, condition)]
+        unk = [w for w, c_ in h.sink.writes if isinstance(w, Unk)]
+        mixed, partial = [], []
+        scalars = []
+        for w, c_ in h.sink.writes:
+            if not isinstance(w, Fmt):
+                continue
+            for v in w.values:
+                if not isinstance(v, Arr):
+                    continue
+                syms, fns_ = alg.leaf_syms(v.poly)
+                hit = [x for x in per_fit + ('fname',) if x in syms]
+                if not hit:
+                    scalars.append(v)
+                    continue
+                if v.poly == sym(hit[0], R_) and len(hit) == 1:
+                    rows.setdefault(hit[0], []).append(c_)
+                    if not (c_ == Poly.const(1)):
+                        partial.append('%s under %s' % (hit[0], alg.show(c_, 80)))
+                elif {x for x in syms if not x.startswith('idx:')} <= set(per_fit) | {'fname', 'model_id'} and fns_ <= {'at', 'len', 'rev', 'argsort', 'min', 'max', 'nanmin', 'nanmax', 'sum'}:
+                    mixed.append(alg.show(v.poly, 80))
+                else:
+                    unk.append(Unk('written value %s' % alg.show(v.poly, 80)))
+        missing = [x for x in per_fit if x not in rows]
+        if mixed:
+            ctx.violation('PERM-8', inst, where(fi), 'a row of the listing mixes fits: alongside the values of fit r it prints %s' % '; '.join(mixed[:3]), 'row-index')
+        elif partial:
+            ctx.violation('PERM-8', inst, where(fi), 'rows are not written for every selected fit: %s' % '; '.join(partial[:3]), 'row-partial')
+        elif isinstance(r, Unk) or unk or missing:
+            ctx.undecided('PERM-8', inst, where(fi), 'listing not modelled: %s' % (r if isinstance(r, Unk) else (unk[0] if unk else 'no write of %s found' % missing)))
+            decided = False
+        else:
+            ctx.ok('PERM-8', inst, where(fi), 'every per-fit value printed on the row of fit r is element r of its array (%s), for every selected fit' % ', '.join(sorted(rows)))
+        if func == 'write_parameters' and not (isinstance(r, Unk) or unk):
+            V = sym('valid', 'w')
+            nd = alg.sum_over(alg.eq(V, 1), 'w') + alg.sum_over(alg.eq(V, 4), 'w')
+            has_nd = any(alg.is_zero(v.poly - nd)[0] for v in scalars)
+            has_nf = any(alg.is_zero(v.poly - alg.count(R_))[0] for v in scalars)
+            ctx.expect(has_nd and has_nf, 'PERM-8', '%s: n_data and n_fits' % func, where(fi), 'the header of each source prints the number of fitted data points and the number of fits kept',
+                       'n_data / n_fits not taken from the record (scalars printed: %s)' % [alg.show(v.poly, 60) for v in scalars][:4], 'counts')
+    return decided
+
+
+def check_rows(ctx):
+    from ..roundtrip import SuspectCtx
+    if not check_row_index_semantic(ctx):
+        try:
+            check_row_index(SuspectCtx(ctx, 'the listing was not decided by interpretation and the syntactic rule, which knows one spelling only, reports'))
+        except AnalysisError as e:
+            ctx.undecided('PERM-8', 'syntactic fall-back', 'sedfitter', 'structure not recognised: %s' % e)
+
+
 def check_callers(ctx):
     """decided by interpreting the consumers; the syntactic typestate rule is the fall-back and may only say undecided"""
     from ..roundtrip import SuspectCtx
@@ -384,7 +483,7 @@ def run(ctx):
     check_filter_table(ctx)
     check_callers(ctx)
     check_ranges(ctx)
-    check_row_index(ctx)
+    check_rows(ctx)
     common.api_rule(ctx, ['fit_info', 'write_parameters', 'write_parameter_ranges', 'extract_parameters', 'models', 'utils.io'], min_chains=60)
     check_ctor(ctx)
 
